@@ -103,6 +103,7 @@ TEMPLATES = [
     ('shuffle_once', _u('shuffle_once', seed=0)),
     ('sort_key', _u('sort', key=2, reverse=False, sort_fn=None)),
     ('sort_keyless_rev', _u('sort', key=None, reverse=True, sort_fn=None)),
+    ('sort_key_inverting_fn', _u('sort', key=2, reverse=False, sort_fn='inverting')),
     ('shard', _shard),
     ('boom', _u('boom', m=2, r=0, exc='FilterException', fn=1)),
     ('boom_a', _u('boom', m=2, r=1, exc='VErrA', fn=2)),
